@@ -345,7 +345,9 @@ def strat(tier):
         b['r2'] = [[draw(st.integers(0, 9)) for _ in range(l)] for l in lens]
       batches.append(b)
     aggs, used = [], set()
-    names = iter(draw(st.permutations(['m1', 'm2', 'm3', 'm4', 'm5', 'm6'])))   # output keys in no particular order
+    # output keys in no particular order (argsort of drawn ranks: st.permutations does not decode under fuzz_one_input)
+    ranks = draw(st.lists(st.integers(0, 5), min_size=6, max_size=6))
+    names = iter([f'm{i + 1}' for i in sorted(range(6), key=lambda i: (ranks[i], i))])
     for _ in range(draw(st.integers(1, 3))):
       if family == 'masks' and not any(a['kind'] == 'nested' for a in aggs):
         kind = 'nested'
@@ -406,5 +408,6 @@ def strat(tier):
 
 SCENARIOS = [
     Scenario('group_by', run_case, strategy=strat, budget={'quick': 3000, 'thorough': 40000},
-             shards={'quick': 12, 'thorough': 16}),
+             shards={'quick': 12, 'thorough': 16},
+             fuzz_runs={'thorough': 60000}, instrument=('ml_metrics._src.chainables.transform', 'ml_metrics._src.chainables.tree_fns', 'ml_metrics._src.chainables.tree', 'ml_metrics._src.utils.iter_utils')),
 ]
